@@ -88,3 +88,16 @@ Proof.
   rewrite (prefix_mem_stable b p m0 d (S j) (length p)); [now apply prefix_mem_written|lia|].
   intros i Hi. apply Hn. lia.
 Qed.
+
+(* a task that only reads (whatever part of the tiles it looks at) changes no value, does not move the
+   version of any tile and leaves the owner's storage alone: what a later flush returns does not depend on it *)
+Lemma read_only_transparent owner b k r t : (forall d, writes t d = false) ->
+  (forall m d, exec_task b k t m d = m d) /\
+  (forall ip d, inpl_step owner ip (FUser r t) d = ip d) /\
+  (forall fp j v h d, ftask_at fp j = FUser r t -> home_update owner fp j v h d = h d).
+Proof.
+  intros H. split; [|split].
+  - intros m d. unfold exec_task, write_back. now rewrite H.
+  - intros ip d. cbn [inpl_step]. now rewrite H.
+  - intros fp j v h d HF. unfold home_update. rewrite HF. now rewrite H.
+Qed.
